@@ -433,6 +433,15 @@ func Analyze(tr *Trace) *Analyzer {
 				a.add("C05", "bystander-removed", fmt.Sprintf("session %#x disappeared although the request does not address it", id), i)
 				continue
 			}
+			if op.Takeover > 0 && target != nil && pre[target.up] != nil && ps.NodeID == pre[target.up].NodeID {
+				// a take-over renames the association the addressed session hangs on; which of that association's
+				// other sessions move with it is not fixed by the statement: their node id is not compared
+				pc, qc := *ps, *qs
+				pc.NodeID, qc.NodeID = "", ""
+				if sessEqual(&pc, &qc) {
+					continue
+				}
+			}
 			if !sessEqual(ps, qs) {
 				a.add("C05", "bystander-changed", fmt.Sprintf("session %#x changed although the request does not address it: before %s after %s", id, J(ps), J(qs)), i)
 			}
